@@ -94,3 +94,31 @@ pub fn same_input(a: &LayoutInput, b: &LayoutInput) -> bool {
         && av(a.available_space.height, b.available_space.height)
         && a.vertical_margins_are_collapsible == b.vertical_margins_are_collapsible
 }
+
+// ---------------------------------------------------------------------------------------------------------
+// C04 attribution: sites that compare a *length* with a dimensionless or absolute constant report when the
+// constant decided the outcome (per-thread counters, read and reset by the harness after each layout)
+
+thread_local! {
+    static SHRINK_FLOOR_HITS: Cell<u32> = const { Cell::new(0) };
+    static TRACK_THRESHOLD_HITS: Cell<u32> = const { Cell::new(0) };
+}
+/// flexbox.rs determine_container_main_size: `f32_max(1.0, flex_shrink * inner_flex_basis)` took the floor while the
+/// basis is non-zero (then the item's contribution `max(1, flex_shrink) * basis * diff` is quadratic in the lengths)
+pub fn note_shrink_floor(flex_shrink: f32, inner_flex_basis: f32) {
+    if flex_shrink * inner_flex_basis < 1.0 && inner_flex_basis != 0.0 {
+        SHRINK_FLOOR_HITS.with(|c| c.set(c.get().saturating_add(1)));
+    }
+}
+pub fn take_shrink_floor_hits() -> u32 {
+    SHRINK_FLOOR_HITS.with(|c| c.replace(0))
+}
+/// grid track_sizing.rs: a positive length was at or below an absolute THRESHOLD constant (0.01 / 1e-6)
+pub fn note_track_threshold(value: f32, threshold: f32) {
+    if value > 0.0 && value <= threshold {
+        TRACK_THRESHOLD_HITS.with(|c| c.set(c.get().saturating_add(1)));
+    }
+}
+pub fn take_track_threshold_hits() -> u32 {
+    TRACK_THRESHOLD_HITS.with(|c| c.replace(0))
+}
